@@ -2,7 +2,8 @@
 
    What is modelled: everything format_document_with_plugins does, i.e. CommonMarkFormatter::new,
    output (pending newlines, prefix insertion, wrapping by rewriting the vector at last_breakable),
-   outc (the escaping decision table), cr, blankline, the Write impl, format (pre/post traversal,
+   outc (the escaping decision table; its three escape forms go straight to the vector), cr, blankline,
+   the Write impl, format (pre/post traversal,
    format_node returning false only for autolinks), get_in_tight_list_item, every format_* function
    of the default feature set (no shortcodes), shortest_unused_sequence, longest_char_sequence,
    is_autolink (with scanners::scheme), table_escape, and the final newline fix-up.
@@ -212,7 +213,9 @@ Fixpoint flush_loop (n : nat) (look : bytes) (s : st) : st :=
       | [] => ([], s)                                   (* k < 0: k -= 1 *)
       | c :: r =>
         if beqb c x0a then (r, s)                       (* k -= 1 *)
-        else (look, let s' := push x0a s in if 1 <? need_cr s then extend_prefix s' else s')
+        else (look,
+              (* self.v.last() == Some(&b'\n'): this newline ends an empty line, the blank line gets the prefix *)
+              push x0a (match rv s with l :: _ => if beqb l x0a then extend_prefix s else s | [] => s end))
       end in
     let s2 := set_need_cr (need_cr s1 - 1)
               (set_begin_content true (set_begin_line true (set_last_breakable 0 (set_column 0 s1)))) in
@@ -225,8 +228,10 @@ Fixpoint drop_spaces (b : bytes) : bytes :=
   | [] => []
   end.
 
-Definition head_is_digit (b : bytes) : bool :=
-  match b with c :: _ => isdigit c | [] => false end.
+(* buf.get(i + 1).map_or(false, |&c| isdigit(c) || c == b'-' || c == b'+' || c == b'='): no line break
+   before such a byte *)
+Definition head_no_break (b : bytes) : bool :=
+  match b with c :: _ => isdigit c || mem_byte c cm_no_break_before | [] => false end.
 
 (* the wrap test at the end of each iteration *)
 Definition wrap_check (width : N) (s : st) : st :=
@@ -255,7 +260,7 @@ Section Output.
       if negb (begin_line s) then
         let last_nonspace := vlen s in
         let s := set_begin_content false (set_begin_line false (set_column (column s + 1) (push x20 s))) in
-        let s := if negb (head_is_digit (drop_spaces rest)) then set_last_breakable last_nonspace s else s in
+        let s := if negb (head_no_break (drop_spaces rest)) then set_last_breakable last_nonspace s else s in
         (s, true)
       else (s, false)
     else if esc_eqb e Literal then
@@ -287,7 +292,7 @@ Section Output.
     out_loop wrap e buf false s.
 End Output.
 
-(* output restricted to Escaping::Literal (the only way outc re-enters output) *)
+(* output restricted to Escaping::Literal (what the Write impl calls; outc is never reached) *)
 Definition output_lit (width : N) (buf : bytes) (wrap : bool) (s : st) : st :=
   output_gen width (fun _ _ _ s => s) buf wrap Literal s.
 
@@ -306,7 +311,7 @@ Definition needs_escaping (c : byte) (e : esc) (nextc : byte) (begin_content fol
    || (esc_eqb e Url && (mem_byte c cm_esc_url || isspace c))
    || (esc_eqb e Title && mem_byte c cm_esc_title)).
 
-Definition outc (width : N) (c : byte) (e : esc) (nextc : option byte) (s : st) : st :=
+Definition outc (c : byte) (e : esc) (nextc : option byte) (s : st) : st :=
   let follows_digit := match rv s with l :: _ => isdigit l | [] => false end in
   let nextc := match nextc with Some n => n | None => x00 end in
   if needs_escaping c e nextc (begin_content s) follows_digit then
@@ -316,12 +321,11 @@ Definition outc (width : N) (c : byte) (e : esc) (nextc : option byte) (s : st) 
       set_column (column s + 2) (extend [x5c; c] s)
     else
       let str := [x26; x23] ++ dec (bN c) ++ [x3b] in
-      let s := write_all width str s in
-      set_column (column s + N.of_nat (List.length str)) s
+      set_column (column s + N.of_nat (List.length str)) (extend str s)
   else set_column (column s + 1) (push c s).
 
 Definition output (width : N) (buf : bytes) (wrap : bool) (e : esc) (s : st) : st :=
-  output_gen width (outc width) buf wrap e s.
+  output_gen width outc buf wrap e s.
 
 (* ---- context of a node during the traversal ---- *)
 Record cctx := mkC {
@@ -505,6 +509,7 @@ Section Format.
 
   Definition url_title_tail (url title : bytes) (title_wrap : bool) (s : st) : st :=
     let s := w [x5d; x28] s in
+    let s := if is_nil url && negb (is_nil title) then w [x3c; x3e] s else s in
     let s := output width url false Url s in
     let s := if negb (is_nil title) then
                let s := if title_wrap then output width [x20; x22] allow_wrap Literal s else w [x20; x22] s in
